@@ -129,6 +129,35 @@ def compat_u2s(u):
         return str(u)
 
 
+class _BoundedReader:
+    """Wraps a binary file object so that ``read(n)`` never allocates more
+    than the data that is really there, however large the count taken
+    from a (possibly corrupt) marshal stream is.
+    """
+
+    CHUNK_SIZE = 1 << 20
+
+    def __init__(self, fp):
+        self.fp = fp
+
+    def read(self, n):
+        if n < 0:
+            raise ValueError("bad marshal data (negative size)")
+        if n <= self.CHUNK_SIZE:
+            return self.fp.read(n)
+        chunks = []
+        while n > 0:
+            chunk = self.fp.read(min(n, self.CHUNK_SIZE))
+            if not chunk:
+                break
+            chunks.append(chunk)
+            n -= len(chunk)
+        return b"".join(chunks)
+
+    def tell(self):
+        return self.fp.tell()
+
+
 class _VersionIndependentUnmarshaller:
     def __init__(self, fp, magic_int, bytes_for_s, code_objects={}):
         """
@@ -141,7 +170,7 @@ class _VersionIndependentUnmarshaller:
 
         In Python 3, a ``bytes`` type is used for strings.
         """
-        self.fp = fp
+        self.fp = _BoundedReader(fp)
         self.magic_int = magic_int
         self.code_objects = code_objects
 
